@@ -296,6 +296,8 @@ def script_from_state(m, sc, v, trail=None):
                 steps.append({'op': 'settle'})
             continue
     for k in sorted(pending_delivery):
+        if v.kind == 'pay-budget':
+            break         # judged at the instant `pay` is issued: HTLCs the model had not handed over by then stay away
         steps.append(htlc_op(sc, specs[k], mdl))
         steps.append({'op': 'settle'})
     if v.kind not in LOCK_KINDS:
